@@ -26,7 +26,9 @@
 // are paired with one/two-cell axes.
 #include <Eigen/Core>
 #include "romea_core_common/containers/grid/GridIndexMapping.hpp"
+#include <iomanip>
 #include <memory>
+#include <sstream>
 #include "vh.hpp"
 
 typedef long double LD;
@@ -34,9 +36,25 @@ typedef long double LD;
 namespace
 {
 
-enum Kind {GENERIC = 0, MULTIPLE, HALF_MULTIPLE, TINY, LIMITS, INSIDE_ONE_CELL};
+enum Kind {GENERIC = 0, MULTIPLE, HALF_MULTIPLE, TINY, LIMITS, INSIDE_ONE_CELL, ZERO_SPECIAL, INTEGER};
 static const char * const KIND_NAME[] = {"generic", "multiple", "half_multiple", "tiny", "limits",
-  "inside_one_cell"};
+  "inside_one_cell", "zero_special", "integer"};
+
+// values random reals never produce: signed zeros, denormals, the smallest normal
+template<class S> S tiny_special(vh::Rng & r)
+{
+  const S dm = std::numeric_limits<S>::denorm_min(), mn = std::numeric_limits<S>::min();
+  switch ((int)r.range(0, 7)) {
+    case 0: return (S)0.0;
+    case 1: return -(S)0.0;
+    case 2: return dm;
+    case 3: return -dm;
+    case 4: return mn;
+    case 5: return -mn;
+    case 6: return (S)(dm * (S)r.range(2, 1000));
+    default: return -(S)(mn / 2);
+  }
+}
 
 template<class S> struct Tr;
 template<> struct Tr<float> {static constexpr int bits = 32; static constexpr int mant = 24;};
@@ -124,6 +142,20 @@ void gen_axis(vh::Rng & r, int kind, LD mcap, S res, S & lo, S & hi)
         LD kk = (LD)r.range((int64_t)ceill(-990 / R), (int64_t)floorl(990 / R));
         lo = (S)((kk + 0.30L) * R); hi = (S)((kk + 0.45L) * R);
       } break;
+    case ZERO_SPECIAL: {      // a bound that is +0, -0, a denormal or the smallest normal
+        S a = tiny_special<S>(r), b = tiny_special<S>(r);
+        int pm = (int)r.range(0, 3);
+        if (pm == 0) {lo = a; hi = b;} else if (pm == 1) {lo = a; hi = (S)w;} else if (pm == 2) {
+          lo = (S)-w; hi = a;
+        } else {lo = (S)(-w * r.uni()); hi = (S)((LD)lo + w); if (!(lo <= 0 && hi >= 0)) {hi = (S)0.0;}}
+      } break;
+    case INTEGER: {           // integer bounds whatever the resolution
+        int64_t wmax = (int64_t)floorl(std::min<LD>(mcap * R, 2000));
+        int64_t wi = wmax <= 0 ? 0 : std::min<int64_t>(wmax, (int64_t)llroundl(w));
+        if (wmax >= 1 && wi == 0 && r.coin(0.8)) {wi = 1;}
+        int64_t l = r.coin(0.4) ? r.range(-1000, 1000 - wi) : std::max<int64_t>(-1000, std::min<int64_t>(1000 - wi, r.range(-wi - 3, 3)));
+        lo = (S)l; hi = (S)(l + wi);
+      } break;
     case LIMITS: {
         int which = (int)r.range(0, 2);
         if (which == 2 && 2000 / R > mcap) {which = (int)r.range(0, 1);}
@@ -161,7 +193,7 @@ S gen_coord(vh::Rng & r, S lo, S hi, S res, const std::vector<S> & tab, size_t n
       return (size_t)r.range(0, (int64_t)n - 1);
     };
   int64_t klo = (int64_t)floorl((LD)lo / R), khi = (int64_t)ceill((LD)hi / R);
-  int mode = (int)r.range(0, 11);
+  int mode = (int)r.range(0, 13);
   if (n == 0 && (mode >= 4 && mode <= 6)) {mode = 2;}
   S v;
   switch (mode) {
@@ -182,6 +214,8 @@ S gen_coord(vh::Rng & r, S lo, S hi, S res, const std::vector<S> & tab, size_t n
         int64_t jlo = (int64_t)ceill((LD)lo / g), jhi = (int64_t)floorl((LD)hi / g);
         v = jlo <= jhi ? (S)((LD)r.range(jlo, jhi) * g) : lo;
       } break;
+    case 12: v = (S)llroundl((LD)lo + ((LD)hi - (LD)lo) * r.uni()); break;   // an integer
+    case 13: v = tiny_special<S>(r); break;                   // +-0, denormals (kept when the extent holds 0)
     default: v = (S)(((LD)r.range(klo, khi) + 0.5L) * R);     // nearest value to a real border
   }
   if (r.coin(0.3)) {
@@ -228,15 +262,24 @@ struct Cfg
   S range = 0;
   bool trivial = false;
   uint64_t hash = 0;
+  int alias = 0;        // 1: G(x, x)  2: G(ext, ext.lower()[k])  3: G(ext, ext.upper()[k])
+  int alias_axis = 0;
+  int form = 0;         // constructor arguments: 0 named lvalues, 1 temporaries, 2 std::move of named objects
 };
 
 // draws resolution + extent + constructor form; false when the draw falls outside the quantifier
 template<class S, size_t D>
-bool gen_cfg(vh::Ctx & c, vh::Rng & r, const char * tname, Cfg<S, D> & out)
+bool gen_cfg(vh::Ctx & c, vh::Rng & r, const char * tname, Cfg<S, D> & out, const S * forced_res = nullptr)
 {
   c.cat(tname);
   int rkind;
-  const S res = pick_res<S>(r, rkind);
+  S res_drawn = pick_res<S>(r, rkind);
+  if (forced_res) {
+    res_drawn = *forced_res;
+    int e; LD mnt = frexpl((LD)res_drawn, &e);
+    rkind = (mnt == 0.5L) ? 0 : 2;
+  }
+  const S res = res_drawn;
   const LD R = res;
   static const char * const RK[] = {"res_dyadic", "res_decimal", "res_generic"};
   c.cat(RK[rkind]);
@@ -248,8 +291,26 @@ bool gen_cfg(vh::Ctx & c, vh::Rng & r, const char * tname, Cfg<S, D> & out)
   bool symmetric = false;
   S range = 0;
   const LD axis_cap = std::min<LD>(2000 / R, 2.0e6L);
-  int gk = (int)r.range(0, 13);
-  if (gk <= 2) {
+  int alias = 0, alias_axis = 0;
+  int gk = (int)r.range(0, 16);
+  if (gk == 16 && r.coin(0.6)) {
+    // argument aliasing: the constructor's reference parameters refer to the same object
+    alias = (int)r.range(1, 3);
+    alias_axis = (int)r.range(0, (int)D - 1);
+    if (alias == 1) {
+      symmetric = true; gcat = "alias_range_is_resolution"; range = res;
+      for (size_t d = 0; d < D; ++d) {lo[d] = -range; hi[d] = range; kinds[d] = GENERIC;}
+    } else {
+      gcat = "alias_resolution_is_bound";
+      for (size_t d = 0; d < D; ++d) {
+        kinds[d] = GENERIC;
+        gen_axis<S>(r, GENERIC, 40, res, lo[d], hi[d]);
+      }
+      size_t k = (size_t)alias_axis;
+      LD w = R * r.uni(0.0, 30.0);
+      if (alias == 2) {lo[k] = res; hi[k] = (S)(R + w);} else {hi[k] = res; lo[k] = (S)(R - w);}
+    }
+  } else if (gk <= 2) {
     // symmetric maximal-range constructor: the same count on every axis
     symmetric = true; gcat = "symmetric";
     LD mcap = std::min<LD>(axis_cap, floorl(powl(1e7L, 1.0L / D)) - 4);
@@ -267,8 +328,11 @@ bool gen_cfg(vh::Ctx & c, vh::Rng & r, const char * tname, Cfg<S, D> & out)
     range = clampS(range, (S)0, (S)1000);
     for (size_t d = 0; d < D; ++d) {lo[d] = -range; hi[d] = range; kinds[d] = GENERIC;}
   } else {
-    static const char * const GC[] = {"generic", "multiple", "half_multiple", "tiny", "limits", "mixed"};
-    int g = gk <= 5 ? 0 : gk <= 7 ? 1 : gk <= 9 ? 2 : gk == 10 ? 3 : gk == 11 ? 4 : 5;
+    static const char * const GC[] = {"generic", "multiple", "half_multiple", "tiny", "limits", "mixed",
+      "zero_special", "integer_bounds"};
+    static const int GK[] = {GENERIC, MULTIPLE, HALF_MULTIPLE, TINY, LIMITS, -1, ZERO_SPECIAL, INTEGER};
+    static const int MIX[] = {GENERIC, MULTIPLE, HALF_MULTIPLE, TINY, LIMITS, ZERO_SPECIAL, INTEGER};
+    int g = gk <= 5 ? 0 : gk <= 7 ? 1 : gk <= 9 ? 2 : gk == 10 ? 3 : gk == 11 ? 4 : gk <= 13 ? 5 : gk == 14 ? 6 : 7;
     gcat = GC[g];
     // axes handled in random order; the first gets the large budget
     size_t order[D];
@@ -279,7 +343,7 @@ bool gen_cfg(vh::Ctx & c, vh::Rng & r, const char * tname, Cfg<S, D> & out)
       size_t d = order[j];
       size_t left = D - 1 - j;                       // axes still to come, at least 2 cells each
       LD mcap = std::min<LD>(axis_cap, floorl(remaining / powl(2.0L, (LD)left)) - 3);
-      int k = g < 5 ? g : (int)r.range(0, 4);
+      int k = GK[g] >= 0 ? GK[g] : MIX[r.range(0, 6)];
       if (mcap < 3) {k = INSIDE_ONE_CELL;}
       kinds[d] = k;
       gen_axis<S>(r, k, std::max<LD>(mcap, 0), res, lo[d], hi[d]);
@@ -305,19 +369,200 @@ bool gen_cfg(vh::Ctx & c, vh::Rng & r, const char * tname, Cfg<S, D> & out)
   const bool trivial = (res == (S)1) && all_small_int;
 
   out.res = res; out.rkind = rkind; out.gcat = gcat; out.symmetric = symmetric; out.range = range;
-  out.trivial = trivial; out.hash = h;
+  out.trivial = trivial; out.hash = vh::hash_addi(h, (uint64_t)alias);
+  out.alias = alias; out.alias_axis = alias_axis;
+  out.form = alias ? 0 : (r.coin(0.7) ? 0 : (int)r.range(1, 2));
+  if (out.form == 1) {c.cat("ctor_args_temporaries");} else if (out.form == 2) {c.cat("ctor_args_moved");}
   for (size_t d = 0; d < D; ++d) {out.lo[d] = lo[d]; out.hi[d] = hi[d]; out.kinds[d] = kinds[d];}
   return true;
 }
 
 template<class S, size_t D>
-romea::core::GridIndexMapping<S, D> make_grid(const Cfg<S, D> & g)
+romea::core::GridIndexMapping<S, D> make_grid(const Cfg<S, D> & g, const S * res_ref = nullptr)
 {
   using G = romea::core::GridIndexMapping<S, D>;
-  if (g.symmetric) {return G(g.range, g.res);}
+  using Itv = romea::core::Interval<S, D>;
+  if (res_ref) {
+    // the resolution (and for alias 1 the range too) is a reference handed out by another
+    // mapping's getter, passed straight back in
+    if (g.alias == 1) {return G(*res_ref, *res_ref);}
+    if (g.symmetric) {return G(g.range, *res_ref);}
+    typename G::PointType l, u;
+    for (size_t d = 0; d < D; ++d) {l[d] = g.lo[d]; u[d] = g.hi[d];}
+    return G(Itv(l, u), *res_ref);
+  }
+  if (g.alias == 1) {S x = g.res; return G(x, x);}                // one object for both reference parameters
+  if (g.symmetric) {
+    if (g.form == 1) {return G(S(g.range), S(g.res));}
+    if (g.form == 2) {S a = g.range, b = g.res; return G(std::move(a), std::move(b));}
+    return G(g.range, g.res);
+  }
   typename G::PointType l, u;
   for (size_t d = 0; d < D; ++d) {l[d] = g.lo[d]; u[d] = g.hi[d];}
-  return G(romea::core::Interval<S, D>(l, u), g.res);
+  if (g.alias == 2) {Itv ext(l, u); return G(ext, ext.lower()[g.alias_axis]);}   // resolution refers into the interval
+  if (g.alias == 3) {Itv ext(l, u); return G(ext, ext.upper()[g.alias_axis]);}
+  if (g.form == 1) {return G(Itv(l, u), S(g.res));}
+  if (g.form == 2) {Itv ext(l, u); S b = g.res; return G(std::move(ext), std::move(b));}
+  Itv ext(l, u);
+  return G(ext, g.res);
+}
+
+
+// ------------------------------------------------------------------------------------------
+// A probe = everything a few fixed queries return.  Used for: result stability (same object,
+// later), value semantics (copy vs source vs fresh object), call-form independence.
+// ------------------------------------------------------------------------------------------
+template<class S, size_t D>
+struct Bound          // results bound by reference exactly as the signatures return them
+{
+  const typename romea::core::GridIndexMapping<S, D>::CellIndexes * nc;
+  const S * res;
+  const std::vector<S> * tab[D];
+};
+
+template<class S, size_t D>
+Bound<S, D> bind_refs(const romea::core::GridIndexMapping<S, D> & m)
+{
+  Bound<S, D> b;
+  const auto & nc = m.getNumberOfCellsAlongAxes();
+  const auto & rs = m.getCellResolution();
+  b.nc = &nc; b.res = &rs;
+  for (size_t d = 0; d < D; ++d) {const auto & t = m.getCellCentersPositionAlong(d); b.tab[d] = &t;}
+  return b;
+}
+
+template<class S> uint64_t table_fingerprint(const std::vector<S> & t)
+{
+  uint64_t h = vh::hash_addi(0x51ab, (uint64_t)t.size());
+  size_t n = t.size();
+  if (n <= 256) {for (size_t i = 0; i < n; ++i) {h = vh::hash_add(h, (double)t[i]);}} else {
+    h = vh::hash_add(vh::hash_add(h, (double)t[0]), (double)t[n - 1]);
+    for (uint64_t j = 1; j <= 64; ++j) {h = vh::hash_add(h, (double)t[(size_t)((j * 0x9e3779b97f4a7c15ULL) % n)]);}
+  }
+  return h;
+}
+
+template<class S, size_t D>
+struct Probe
+{
+  uint64_t nc[D];
+  S res;
+  uint64_t fp[D];
+  uint64_t ix[3][D];
+  S cc[3][D];
+  bool in[3];
+  bool operator==(const Probe & o) const
+  {
+    bool e = std::memcmp(&res, &o.res, sizeof(S)) == 0;
+    for (size_t d = 0; d < D; ++d) {e = e && nc[d] == o.nc[d] && fp[d] == o.fp[d];}
+    for (int k = 0; k < 3; ++k) {
+      e = e && in[k] == o.in[k];
+      for (size_t d = 0; d < D; ++d) {
+        e = e && ix[k][d] == o.ix[k][d] && (!in[k] || std::memcmp(&cc[k][d], &o.cc[k][d], sizeof(S)) == 0);
+      }
+    }
+    return e;
+  }
+  std::string json() const
+  {
+    vh::J j;
+    j.f("res", res).arr("ncells", nc, nc + D).arr("table_fingerprints", fp, fp + D);
+    for (int k = 0; k < 3; ++k) {
+      std::string key = std::string("point") + char('0' + k);
+      vh::J q; q.arr("index", ix[k], ix[k] + D);
+      if (in[k]) {q.arr("centre", cc[k], cc[k] + D);}
+      j.raw(key.c_str(), q.str());
+    }
+    return j.str();
+  }
+};
+
+// the three probe points: lower corner, upper corner, middle of the extent
+template<class S, size_t D>
+typename romea::core::GridIndexMapping<S, D>::PointType probe_point(const Cfg<S, D> & g, int k)
+{
+  typename romea::core::GridIndexMapping<S, D>::PointType p;
+  for (size_t d = 0; d < D; ++d) {
+    p[d] = k == 0 ? g.lo[d] : k == 1 ? g.hi[d] : clampS((S)(((LD)g.lo[d] + (LD)g.hi[d]) / 2), g.lo[d], g.hi[d]);
+  }
+  return p;
+}
+
+template<class S, size_t D>
+Probe<S, D> take_probe(const romea::core::GridIndexMapping<S, D> & m, const Bound<S, D> & b, const Cfg<S, D> & g)
+{
+  Probe<S, D> pr;
+  pr.res = *b.res;
+  bool tables = true;
+  for (size_t d = 0; d < D; ++d) {
+    pr.nc[d] = (*b.nc)[d];
+    pr.fp[d] = table_fingerprint(*b.tab[d]);
+    tables = tables && b.tab[d]->size() >= (*b.nc)[d];
+  }
+  for (int k = 0; k < 3; ++k) {
+    auto ix = m.computeCellIndexes(probe_point(g, k));
+    pr.in[k] = tables;
+    for (size_t d = 0; d < D; ++d) {pr.ix[k][d] = ix[d]; pr.in[k] = pr.in[k] && ix[d] < (*b.nc)[d]; pr.cc[k][d] = 0;}
+    if (pr.in[k]) {
+      auto cc = m.computeCellCenterPosition(ix);
+      for (size_t d = 0; d < D; ++d) {pr.cc[k][d] = cc[d];}
+    }
+  }
+  return pr;
+}
+template<class S, size_t D>
+Probe<S, D> take_probe(const romea::core::GridIndexMapping<S, D> & m, const Cfg<S, D> & g)
+{
+  return take_probe(m, bind_refs(m), g);
+}
+
+template<class S, size_t D>
+vh::Params light_params(const Cfg<S, D> & g, int assign_mode)
+{
+  return vh::Params{{"scalar_bits", (double)Tr<S>::bits}, {"dim", (double)D}, {"symmetric_ctor", g.symmetric ? 1.0 : 0.0},
+    {"reassigned", (double)assign_mode}, {"res", (double)g.res}, {"alias", (double)g.alias}, {"ctor_form", (double)g.form}};
+}
+template<class S, size_t D>
+std::string cfg_json(const Cfg<S, D> & g, const char * phase)
+{
+  return vh::J().s("scalar", Tr<S>::bits == 32 ? "float" : "double").f("dim", (int)D).s("category", g.gcat)
+         .s("object_history", phase).s("ctor", g.symmetric ? "maximalRange" : "interval").f("res", g.res)
+         .f("range", g.range).arr("lo", g.lo, g.lo + D).arr("hi", g.hi, g.hi + D).f("alias", g.alias)
+         .f("ctor_form", g.form).str();
+}
+
+// neighbouring facilities between two observations: sibling mappings of the same and of the other
+// instantiations (built, queried, assigned, destroyed) and stream formatting with changed flags
+template<class S, size_t D>
+void disturb(vh::Rng & r)
+{
+  using G = romea::core::GridIndexMapping<S, D>;
+  typedef typename std::conditional<std::is_same<S, float>::value, double, float>::type S2;
+  constexpr size_t D2 = D == 2 ? 3 : 2;
+  {
+    G sib(S(3.5), S(0.5));
+    volatile S v = sib.getCellCentersPositionAlong(0)[1]; (void)v;
+    G other;
+    other = sib;
+    typename G::PointType p = G::PointType::Constant(S(1.25));
+    volatile size_t i = other.computeCellIndexes(p)[D - 1]; (void)i;
+    sib = G(S(1), S(r.coin() ? 0.25 : 2.0));
+    volatile S w = sib.computeCellCenterPosition(G::CellIndexes::Zero())[0]; (void)w;
+  }
+  {
+    romea::core::GridIndexMapping<S2, D> a(S2(7), S2(1));
+    romea::core::GridIndexMapping<S, D2> b(S(2), S(0.125));
+    romea::core::GridIndexMapping<S2, D2> e(S2(0.5), S2(0.01));
+    volatile S2 v = a.getCellCentersPositionAlong(D - 1)[2]; (void)v;
+    volatile S w = b.getCellCentersPositionAlong(D2 - 1)[3]; (void)w;
+    volatile size_t n = e.getNumberOfCellsAlongAxes()[0]; (void)n;
+  }
+  {
+    std::ostringstream os;
+    os << std::setprecision(3) << std::scientific << 1234.5678 << std::hexfloat << 0.1f << std::fixed
+       << std::setw(12) << std::setfill('*') << -2.5L << std::boolalpha << true << std::hex << 255;
+    volatile size_t n = os.str().size(); (void)n;
+  }
 }
 
 // all oracles of the statement, on mapping object m which is claimed to represent configuration g.
@@ -342,7 +587,10 @@ void check_grid(
   const bool symmetric = g.symmetric;
   const S range = g.range;
 
-  const Ix nc = m.getNumberOfCellsAlongAxes();
+  // results bound as the signatures return them (const references), kept to the end of this check
+  const auto & nc_ref = m.getNumberOfCellsAlongAxes();
+  const auto & res_ref = m.getCellResolution();
+  const Ix nc = nc_ref;
   {
     LD built = 1;
     for (size_t d = 0; d < D; ++d) {built *= (LD)nc[d];}
@@ -411,6 +659,64 @@ void check_grid(
   }
   if (!tables_ok) {return;}
 
+  c.expect("resolution_getter", res_ref == g.res, "resolution_mismatch", [&]() {return base_params(0);}, [&]() {
+      return grid_json().f("getCellResolution", res_ref).str();
+    });
+  Bound<S, D> b0;
+  b0.nc = &nc_ref; b0.res = &res_ref;
+  for (size_t d = 0; d < D; ++d) {b0.tab[d] = tab[d];}
+  const Probe<S, D> pr0 = take_probe(m, b0, g);
+
+  // ---------------------------------------------------------------- call forms: temporaries, std::move, Eigen
+  // expressions, arguments that are references to the object's own state
+  {
+    Flag cf;
+    for (int k = 0; k < 3; ++k) {
+      ++cf.cnt;
+      Pt p = probe_point(g, k);
+      Ix a = m.computeCellIndexes(p);
+      Pt q = p, q2 = p;
+      Ix b1 = m.computeCellIndexes(Pt(p));
+      Ix b2 = m.computeCellIndexes(std::move(q));
+      Ix b3 = m.computeCellIndexes(p + Pt::Zero());
+      Ix b4 = m.computeCellIndexes(q2.template head<D>());
+      bool same = a == b1 && a == b2 && a == b3 && a == b4;
+      if (pr0.in[k]) {
+        Pt c0 = m.computeCellCenterPosition(a);
+        Ix a2 = a;
+        Pt c1 = m.computeCellCenterPosition(Ix(a));
+        Pt c2 = m.computeCellCenterPosition(std::move(a2));
+        Pt c3 = m.computeCellCenterPosition(a + Ix::Zero());
+        same = same && std::memcmp(c0.data(), c1.data(), sizeof(S) * D) == 0 &&
+          std::memcmp(c0.data(), c2.data(), sizeof(S) * D) == 0 && std::memcmp(c0.data(), c3.data(), sizeof(S) * D) == 0;
+        Ix back1 = m.computeCellIndexes(m.computeCellCenterPosition(a));
+        Ix back2 = m.computeCellIndexes(c0);
+        same = same && back1 == back2;
+      }
+      if (!same && !cf.bad) {cf.bad = true; cf.detail = vh::J().raw("point", vh::jvec(p)).str();}
+    }
+    for (size_t d = 0; d < D; ++d) {
+      size_t dl = d;
+      const std::vector<S> & t1 = m.getCellCentersPositionAlong(dl);
+      const std::vector<S> & t2 = m.getCellCentersPositionAlong(size_t(d));
+      const std::vector<S> & t3 = m.getCellCentersPositionAlong(std::move(dl));
+      auto same_table = [&](const std::vector<S> & t, size_t ax) {
+          return &t == tab[ax] || table_fingerprint(t) == pr0.fp[ax];     // same object, or at least same content
+        };
+      bool same = same_table(t1, d) && same_table(t2, d) && same_table(t3, d);
+      // the axis number given as a reference to the object's own cell count (when that count is a valid axis)
+      if (nc_ref[d] < D) {
+        const std::vector<S> & t4 = m.getCellCentersPositionAlong(nc_ref[d]);
+        same = same && same_table(t4, nc_ref[d]);
+        c.cat("own_count_passed_as_axis");
+      }
+      if (!same && !cf.bad) {cf.bad = true; cf.axis = (int)d; cf.detail = vh::J().f("table_axis", (int)d).str();}
+    }
+    c.expect("call_form_independent", !cf.bad, "result_depends_on_call_form", [&]() {return base_params(cf.axis);}, [&]() {
+        return grid_json().raw("fail", cf.detail).str();
+      });
+  }
+
   // ---------------------------------------------------------------- points of the closed extent
   Rec half_g, half_e;
   Flag inb;
@@ -421,6 +727,13 @@ void check_grid(
       for (size_t d = 0; d < D; ++d) {p[d] = ((k >> d) & 1) ? hi[d] : lo[d];}
     } else {
       for (size_t d = 0; d < D; ++d) {p[d] = gen_coord<S>(r, lo[d], hi[d], res, *tab[d], nc[d]);}
+      if (k % 8 == 7) {
+        // equal components (incl. the origin) when the common value lies in every axis's interval
+        S v = (k % 16 == 7) ? (r.coin() ? (S)0.0 : -(S)0.0) : p[0];
+        bool fits = true;
+        for (size_t d = 0; d < D; ++d) {fits = fits && v >= lo[d] && v <= hi[d];}
+        if (fits) {p = Pt::Constant(v); c.cat(v == 0 ? "point_origin" : "point_equal_components");}
+      }
     }
     Ix ix = m.computeCellIndexes(p);
     ++npts; ++inb.cnt;
@@ -468,6 +781,8 @@ void check_grid(
     };
   report("half_cell", "point_far_from_cell_centre", half_g);
   report("exact.half_cell", "point_far_from_cell_centre", half_e);
+
+  disturb<S, D>(r);       // sibling objects and stream formatting between the observations
 
   // ---------------------------------------------------------------- centres map back to their own indexes
   {
@@ -533,6 +848,31 @@ void check_grid(
   report("exact.spacing", "centre_spacing", sp_e);
   report("cover", "bounds_not_covered", cv_g);
   report("exact.cover", "bounds_not_covered", cv_e);
+
+  // ---------------------------------------------------------------- result stability: the references bound at the
+  // start still show the same values, and the same queries return the same results, after everything above
+  {
+    const Probe<S, D> pr1 = take_probe(m, b0, g), pr2 = take_probe(m, g);
+    c.expect("result_stable", pr0 == pr1 && pr0 == pr2, "result_changed", [&]() {return base_params(0);}, [&]() {
+        return grid_json().raw("first", pr0.json()).raw("later_via_kept_references", pr1.json())
+               .raw("later_via_new_references", pr2.json()).str();
+      });
+  }
+}
+
+// an object holding configuration g answers the probe exactly as a freshly constructed one
+template<class S, size_t D>
+void expect_same_as_fresh(
+  vh::Ctx & c, const Cfg<S, D> & g, const romea::core::GridIndexMapping<S, D> & m, const char * phase, int mode)
+{
+  Cfg<S, D> plain = g;
+  plain.form = 0;
+  if (plain.alias > 1) {plain.alias = 0;}
+  const romea::core::GridIndexMapping<S, D> fresh = make_grid(plain);
+  const Probe<S, D> a = take_probe(m, g), b = take_probe(fresh, g);
+  c.expect("same_as_fresh_object", a == b, "differs_from_fresh_object", [&]() {return light_params(g, mode);}, [&]() {
+      return vh::J().raw("grid", cfg_json(g, phase)).raw("object", a.json()).raw("fresh", b.json()).str();
+    });
 }
 
 // light uses of an object that stop short of the full oracles (to vary what the object has
@@ -559,11 +899,14 @@ void touch_centres(const romea::core::GridIndexMapping<S, D> & m)
   }
 }
 
-// One case = one mapping OBJECT and its history: built (directly, by copy, or default-constructed
-// then assigned), used (not at all / indexes only / centres only / all oracles), then -- in about a
-// third of the cases -- assigned a NEW configuration (from a never-queried temporary, from a source
-// whose indexes / centres were already used, from a fully checked source, by move, twice in a row,
-// or from a copy of itself) and checked again with all oracles against the new parameters.
+// One case = one mapping OBJECT and its history: built (directly, by copy, by move, or default-
+// constructed then assigned), used (not at all / indexes only / centres only / all oracles), then --
+// in about a third of the cases -- assigned a NEW configuration (from a never-queried temporary,
+// from a source whose indexes / centres were already used, from a fully checked source, by move,
+// twice in a row, from a copy of itself, from a mapping built out of its own getters' references,
+// or after a long history of 2^8+k / 2^16+k assignments and queries) and checked again with all
+// oracles against the new parameters; finally, in 8 % of the cases, copied / moved and the
+// copy, the source and a fresh object compared (value semantics).
 template<class S, size_t D>
 void grid_case(vh::Ctx & c, vh::Rng & r, const char * tname)
 {
@@ -571,29 +914,52 @@ void grid_case(vh::Ctx & c, vh::Rng & r, const char * tname)
   Cfg<S, D> g1;
   if (!gen_cfg<S, D>(c, r, tname, g1)) {return;}
 
-  int how = (int)r.range(0, 9);      // 0: default-construct then assign, 1: copy, else direct
+  int how = (int)r.range(0, 9);      // 0: default-construct then assign, 1: copy, 2: move, else direct
   std::unique_ptr<G> grid;
   if (how == 0) {grid.reset(new G()); *grid = make_grid(g1);} else if (how == 1) {
     G tmp = make_grid(g1);
     if (r.coin()) {touch_centres<S, D>(tmp);}
     grid.reset(new G(tmp));
+  } else if (how == 2) {
+    G tmp = make_grid(g1);
+    if (r.coin()) {touch_centres<S, D>(tmp);}
+    grid.reset(new G(std::move(tmp)));
+    c.cat("move_constructed");
+    tmp = G(S(2), S(1));             // the moved-from source is given another job, then dropped
+    touch_centres<S, D>(tmp);
   } else {grid.reset(new G(make_grid(g1)));}
 
-  const bool reassign = r.coin(0.34);
+  // long histories: always drawn, so that the case stream does not depend on the case count
+  const bool lh8 = r.coin(1.0 / 150), lh16draw = r.coin(1.0 / 6000);
+  const bool lh16 = lh16draw && c.N > 50000;          // too slow for the reduced (valgrind) workloads
+  const int kextra = (int)r.range(0, 3);
+
+  const bool reassign = lh8 || lh16 || r.coin(0.34);
   // what the object has served before the re-assignment (always everything when there is none)
   const int pre = reassign ? (int)r.range(0, 5) : 5;    // 0 nothing, 1 indexes, 2 centres, 3..5 all oracles
   if (pre >= 3) {
     check_grid<S, D>(c, r, tname, g1, *grid, how == 0 ? "default_constructed_then_assigned" :
-      how == 1 ? "copy_constructed" : "constructed", 0);
+      how == 1 ? "copy_constructed" : how == 2 ? "move_constructed" : "constructed", 0);
   } else if (pre == 1) {touch_indexes<S, D>(*grid, g1);} else if (pre == 2) {touch_centres<S, D>(*grid);}
 
   uint64_t h = g1.hash;
   bool trivial = g1.trivial;
+  Cfg<S, D> gcur = g1;
+  int cur_mode = 0;
   if (reassign) {
     Cfg<S, D> g2;
-    int mode = (int)r.range(1, 9);
+    int mode = (lh8 || lh16) ? 12 : (int)r.range(1, 11);
     bool have = true;
-    if (mode == 9) {g2 = g1;} else {have = gen_cfg<S, D>(c, r, tname, g2);}
+    if (mode == 9) {g2 = g1;} else if (mode == 10) {
+      // G(own resolution, own resolution): symmetric, range == resolution
+      g2 = g1;
+      g2.symmetric = true; g2.range = g1.res; g2.alias = 1; g2.form = 0; g2.gcat = "alias_range_is_resolution";
+      for (size_t d = 0; d < D; ++d) {g2.lo[d] = -g1.res; g2.hi[d] = g1.res; g2.kinds[d] = GENERIC;}
+      g2.trivial = false; g2.hash = vh::hash_addi(g1.hash, 0xa11a5);
+      c.cat(g2.gcat);
+    } else if (mode == 11) {have = gen_cfg<S, D>(c, r, tname, g2, &g1.res);} else {
+      have = gen_cfg<S, D>(c, r, tname, g2);
+    }
     if (have) {
       const char * phase = "";
       switch (mode) {
@@ -618,6 +984,9 @@ void grid_case(vh::Ctx & c, vh::Rng & r, const char * tname)
             G src = make_grid(g2);
             if (r.coin()) {touch_centres<S, D>(src);}
             *grid = std::move(src);
+            // a moved-from object may be assigned to and must then be as good as new
+            src = make_grid(g1);
+            expect_same_as_fresh<S, D>(c, g1, src, "moved_from_then_assigned", 7);
           } break;
         case 8: {
             // two assignments in a row; the intermediate configuration is used or not
@@ -629,13 +998,38 @@ void grid_case(vh::Ctx & c, vh::Rng & r, const char * tname)
             }
             *grid = make_grid(g2);
           } break;
-        default: {
+        case 9: {
             phase = "reassigned_from_copy_of_itself";
             G cp(*grid);
             if (r.coin()) {touch_centres<S, D>(cp);}
             *grid = cp;
             G & self = *grid;
             *grid = self;
+          } break;
+        case 10: case 11: {
+            // arguments are references handed out by the target's own getter, no copy in between;
+            // the expected configuration uses the VALUE of that resolution at call time (g1.res)
+            phase = "reassigned_from_own_getters";
+            const S & own = grid->getCellResolution();
+            *grid = make_grid(g2, &own);
+          } break;
+        default: {
+            // long history: 2^8+k or 2^16+k assignments of alternating small configurations (every 7th
+            // one used), the final configuration, then as many queries, before the oracles look
+            phase = lh16 ? "reassigned_after_2p16_history" : "reassigned_after_2p8_history";
+            const uint64_t n = (lh16 ? 65536u : 256u) + (uint64_t)kextra;
+            for (uint64_t i = 0; i < n; ++i) {
+              if (i & 1) {*grid = G(S(1.25), S(0.5));} else {*grid = G(S(2), S(1));}
+              if (i % 7 == 3) {touch_centres<S, D>(*grid);}
+            }
+            *grid = make_grid(g2);
+            typename G::PointType p0 = probe_point(g2, 0), p2 = probe_point(g2, 2);
+            size_t acc = 0;
+            for (uint64_t i = 0; i < n; ++i) {
+              acc += grid->computeCellIndexes((i & 1) ? p0 : p2)[0];
+              if (i % 64 == 5) {acc += grid->getCellCentersPositionAlong(i % D).size();}
+            }
+            volatile size_t sink = acc; (void)sink;
           }
       }
       c.cat("reassigned");
@@ -643,11 +1037,49 @@ void grid_case(vh::Ctx & c, vh::Rng & r, const char * tname)
       c.cat(pre == 0 ? "reassigned_target_never_used" : pre == 1 ? "reassigned_target_indexes_used" :
         pre == 2 ? "reassigned_target_centres_used" : "reassigned_target_fully_checked");
       check_grid<S, D>(c, r, tname, g2, *grid, phase, mode);
+      expect_same_as_fresh<S, D>(c, g2, *grid, phase, mode);
       h = vh::hash_addi(vh::hash_addi(h, g2.hash), (uint64_t)(mode * 8 + pre));
       trivial = trivial && g2.trivial;
+      gcur = g2; cur_mode = mode;
     }
   }
   c.distinct(h, !trivial);
+
+  // ---------------------------------------------------------------- value semantics
+  if (r.coin(0.08)) {
+    const int v = (int)r.range(0, 3);
+    static const char * const VN[] = {"copy_constructed_from_used_object", "copy_assigned_from_used_object",
+      "move_constructed_from_copy_of_used_object", "move_assigned_from_copy_of_used_object"};
+    c.cat("value_semantics");
+    c.cat(VN[v]);
+    const Probe<S, D> src0 = take_probe(*grid, gcur);
+    std::unique_ptr<G> cp;
+    if (v == 0) {cp.reset(new G(*grid));} else if (v == 1) {
+      cp.reset(new G(S(2), S(1))); touch_centres<S, D>(*cp); *cp = *grid;
+    } else if (v == 2) {
+      G t(*grid); cp.reset(new G(std::move(t))); t = G(S(1.25), S(0.5)); touch_centres<S, D>(t);
+    } else {
+      G t(*grid); cp.reset(new G()); *cp = std::move(t); t = G(S(1.25), S(0.5)); touch_centres<S, D>(t);
+    }
+    check_grid<S, D>(c, r, tname, gcur, *cp, VN[v], 20 + v);
+    const Probe<S, D> src1 = take_probe(*grid, gcur);
+    c.expect("source_unaffected_by_copy_use", src0 == src1, "source_changed_by_copy_use",
+      [&]() {return light_params(gcur, 20 + v);}, [&]() {
+        return vh::J().raw("grid", cfg_json(gcur, VN[v])).raw("before", src0.json()).raw("after", src1.json()).str();
+      });
+    // results of the copy bound by reference, kept while the source is overwritten or destroyed
+    const Bound<S, D> bc = bind_refs(*cp);
+    const Probe<S, D> cp0 = take_probe(*cp, bc, gcur);
+    if (r.coin()) {*grid = G(S(2), S(1)); touch_centres<S, D>(*grid);} else {grid.reset();}
+    const Probe<S, D> cp1 = take_probe(*cp, bc, gcur);
+    c.expect("copy_survives_source", cp0 == cp1, "copy_changed_with_source",
+      [&]() {return light_params(gcur, 20 + v);}, [&]() {
+        return vh::J().raw("grid", cfg_json(gcur, VN[v])).raw("before", cp0.json()).raw("after", cp1.json()).str();
+      });
+    expect_same_as_fresh<S, D>(c, gcur, *cp, VN[v], 20 + v);
+    if (r.coin(0.3)) {check_grid<S, D>(c, r, tname, gcur, *cp, "copy_after_source_overwritten_or_destroyed", 30 + v);}
+    (void)cur_mode;
+  }
 }
 
 void one_case(vh::Ctx & c, uint64_t idx)
